@@ -34,6 +34,9 @@
         Batching && _receiver != nullptr: _receiver = next.next; next._executor = curr_executor; transfer   ERTransfer c n
         else _receiver = next.next; next._executor->Submit(next)            ERSubmitNext c n e
      UnlockStickyAwaiter: guard._executor == nullptr ? UnlockHere : AwaitUnlockOn on guard._executor   guard_sticky.hpp:44-58
+     Guard objects (guard.hpp): Guard::TryLock() = TryLockAwait (ETryBegin ...), Guard::Lock() = the Lock awaiter,
+        StickyGuard::Lock() = LockStickyAwaiter (EReq c true); the guard's owns bit is the coroutine owning the lock
+        (pc PGot / PIn): a failed TryLock leaves it at POut, and only an owner can start a release (ELeave)
 
    The sender word is [NotLocked] or [Locked l], l = the LIFO list of newly pushed waiters ([Locked []] is
    kLockedNoWaiters = 0); the receiver list is a plain field.  A value of the word seen by a thread is a [ptr].
@@ -144,7 +147,8 @@ Inductive ev :=
 | ERXchg (c : nat) (old : ptr)
 | ERSubmitNext (c n e : nat)
 | ERBatchSubmit (c e : nat)
-| ERTransfer (c n : nat).
+| ERTransfer (c n : nat)
+| EFresh (c : nat).                       (* a StickyGuard object is constructed (std::defer_lock): its _executor = nullptr *)
 
 Fixpoint set_nth {A} (n : nat) (v : A) (l : list A) {struct l} : list A :=
   match l, n with
@@ -511,6 +515,16 @@ Definition step (s : st) (e : ev) : option st :=
               if Nat.eqb n n' then hand n (LRun w) None (set_co c (upd_rel None x) s) else None
           | _ => None
           end
+      | None => None
+      end
+  (* ---- guard objects ---- *)
+  | EFresh c =>
+      (* StickyGuard(m, std::defer_lock): `IExecutor* _executor = nullptr` (guard_sticky.hpp); a guard object that is kept
+         and reused keeps whatever executor an earlier GuardSticky()/Lock() left in it *)
+      match get s c with
+      | Some x => match pc x, loc x with
+                  | POut, LRun _ => Some (set_co c (upd_sticky None x) s)
+                  | _, _ => None end
       | None => None
       end
   end.
